@@ -644,3 +644,53 @@ Definition val_agree (inF : bool) (a b : option value) : Prop :=
   else a = b.
 Definition rec_agree (F : list str) (r1 r2 : list (str * value)) : Prop :=
   forall f, val_agree (mem_str f F) (lookup f r1) (lookup f r2).
+
+(* ------------------------------------------------------------------------------------------ *)
+(** * 7. The note net/http writes with a redirect (GOROOT/src/net/http/server.go:2299-2366)
+
+    http.Redirect answers a GET with Content-Type text/html and the body
+      <a href="HTMLESCAPE(url)">STATUS TEXT</a>. (and two line feeds)
+    where htmlEscape rewrites & < > double quote and apostrophe. Every 30x of sso (OAuthStart, the
+    end of the callback, sign-out, https upgrade, the authenticator's redirects back to the
+    proxy and to the provider) carries such a note with request-controlled text in the URL. *)
+Definition net_repl (c : N) : option str :=
+  if c =? 38 then Some [38;97;109;112;59]
+  else if c =? 60 then Some [38;108;116;59]
+  else if c =? 62 then Some [38;103;116;59]
+  else if c =? 34 then Some [38;35;51;52;59]
+  else if c =? 39 then Some [38;35;51;57;59]
+  else None.
+Fixpoint net_escape (s : str) : str :=
+  match s with
+  | [] => []
+  | c :: r => match net_repl c with Some e => e ++ net_escape r | None => c :: net_escape r end
+  end.
+
+Definition note_pre : str := [60;97;32;104;114;101;102;61;34].        (* <a href= and the opening quote *)
+Definition note_mid : str := [34;62].                                  (* closing quote and > *)
+Definition note_post : str := [60;47;97;62;46;10;10].                  (* </a>.\n\n *)
+Definition redirect_note (url text : str) : str :=
+  note_pre ++ net_escape url ++ note_mid ++ text ++ note_post.
+
+(* the escaped URL of a body of that shape, if it has the shape *)
+Fixpoint strip_suffix_rev (rs rsuf : str) {struct rsuf} : option str :=   (* both reversed *)
+  match rsuf, rs with
+  | [], _ => Some rs
+  | c :: p, d :: s => if c =? d then strip_suffix_rev s p else None
+  | _ :: _, [] => None
+  end.
+Fixpoint strip_pre (p s : str) {struct p} : option str :=
+  match p, s with
+  | [], _ => Some s
+  | c :: p', d :: s' => if c =? d then strip_pre p' s' else None
+  | _ :: _, [] => None
+  end.
+Definition note_url (body text : str) : option str :=
+  match strip_pre note_pre body with
+  | Some rest =>
+      match strip_suffix_rev (List.rev rest) (List.rev (note_mid ++ text ++ note_post)) with
+      | Some rm => Some (List.rev rm)
+      | None => None
+      end
+  | None => None
+  end.
